@@ -40,26 +40,27 @@ type gor struct {
 
 // Sched is one scheduled execution.
 type Sched struct {
-	mu        sync.Mutex
-	active    bool
-	rootID    int64
-	gs        map[int64]*gor
-	parked    []*gor
-	named     int
-	locks     map[any]*lockState
-	Choose    func(n int) int // decision source: returns an index in [0, n)
-	Runnable  []string        // names of the runnable goroutines at the current decision (sorted); for choosers
-	Last      string          // name of the goroutine that ran the previous step
-	Decided   []int           // the decisions taken (index into the name-sorted runnable list)
-	Steps     int
-	MaxSteps  int
-	Deadlock  string // non-empty: no goroutine could run although work remained
-	CapHit    bool
-	Trace     []string // "name@site" per step (kept short)
-	KeepTrace bool
-	Finished  func() bool // workload-complete predicate, evaluated at quiescence
-	After     func()      // optional: runs on the root goroutine, inside the bubble, after the loop
-	Sites     map[string]int
+	mu            sync.Mutex
+	active        bool
+	rootID        int64
+	gs            map[int64]*gor
+	parked        []*gor
+	named         int
+	locks         map[any]*lockState
+	Choose        func(n int) int // decision source: returns an index in [0, n)
+	Runnable      []string        // names of the runnable goroutines at the current decision (sorted); for choosers
+	Last          string          // name of the goroutine that ran the previous step
+	Decided       []int           // the decisions taken (index into the name-sorted runnable list)
+	Steps         int
+	MaxSteps      int
+	YieldOnUnlock bool   // a lock release is a scheduling point too
+	Deadlock      string // non-empty: no goroutine could run although work remained
+	CapHit        bool
+	Trace         []string // "name@site" per step (kept short)
+	KeepTrace     bool
+	Finished      func() bool // workload-complete predicate, evaluated at quiescence
+	After         func()      // optional: runs on the root goroutine, inside the bubble, after the loop
+	Sites         map[string]int
 }
 
 var current *Sched
@@ -104,7 +105,17 @@ func Unlock(m any, write bool) {
 	s.mu.Lock()
 	s.release(m, write)
 	s.mu.Unlock()
+
+	// releasing a lock is a point where a real scheduler can switch as well: what
+	// follows the critical section then races with everybody else
+	if s.YieldOnUnlock {
+		s.park("after-unlock", nil, false, nil)
+	}
 }
+
+// UnlockYields derives from the run's seed whether lock releases are scheduling
+// points in that run (half of the runs: the other half keeps longer stretches).
+func UnlockYields(seed uint64) bool { return (seed>>17)&1 == 1 }
 
 func (s *Sched) release(m any, write bool) {
 	ls := s.locks[m]
